@@ -1532,3 +1532,36 @@ from . import w2_validate  # noqa: E402,F401
 from . import w2_authz  # noqa: E402,F401
 from . import w2_diff  # noqa: E402,F401
 from . import w2_rt  # noqa: E402,F401
+
+
+def twin_port_sequence(w, rng, st):
+    """Two equally named sub-interfaces under two ports of one node, both connected to one service (legal; the
+    service then holds two ports with one derived name - open finding F-C07-derived-port-name), then one of them
+    disconnected: only runs that do not steer around that finding build this on purpose."""
+    if 'subif_name_reuse' in w.avoid or w.cfg['flavour'] == 'substrate':
+        return None
+    for n in st.of_class('NetworkNode'):
+        ded = [cp for cp in st.node_interfaces(n) if st.typ(cp) == 'DedicatedPort' and not st.links_of_cp(cp)]
+        refs = [(cp, iface_ref(st, cp)) for cp in ded]
+        refs = [(cp, r) for cp, r in refs if r and 'twin' not in [st.name(k) for k in st.child_cps(cp)]]
+        if len(refs) < 2:
+            continue
+        (c1, r1), (c2, r2) = rng.sample(refs, 2)
+        svcs = [x for x in top_services(st) if st.typ(x) in ('L2Bridge', 'L2STS')]
+        steps = []
+        if svcs:
+            sv = st.name(rng.choice(svcs))
+        else:
+            names = [st.name(x) for x in st.of_class('NetworkService')]
+            sv = next((x for x in W.SVC_NAMES + ['s6', 's7'] if x not in names), None)
+            if sv is None:
+                return None
+            steps.append({'op': 'add_network_service', 'name': sv, 'nstype': 'L2Bridge', 'ifs': [], 'id': None, 'kw': {}})
+        steps.append({'op': 'add_child_interface', 'iface': r1, 'name': 'twin', 'vlan': '110', 'id': None})
+        steps.append({'op': 'add_child_interface', 'iface': r2, 'name': 'twin', 'vlan': '111', 'id': None})
+        steps.append({'op': 'connect_interface', 'svc': sv, 'iface': dict(r1, sub='twin')})
+        steps.append({'op': 'connect_interface', 'svc': sv, 'iface': dict(r2, sub='twin')})
+        steps.append({'op': 'disconnect_interface', 'svc': sv, 'iface': dict(rng.choice([r1, r2]), sub='twin')})
+        w.stats.inc('probe.twin_port_sequences')
+        return steps
+    return None
